@@ -37,7 +37,7 @@ LEVEL_NOTE = ('trusted base: vf/ball.py, vf/exactq.py, CPython ints; gamma famil
               '(classes .../tier:consensus-enclosure); only sampled points of each rectangle are tested')
 TECHNIQUE = 'runtime oracle monitor on rectangle results + StoreHook on stored rectangles + ReturnTap on directed primitives'
 
-CASES = {'quick': 3600, 'thorough': 36000}
+CASES = {'quick': 7000, 'thorough': 60000}
 NSHARDS = 16
 OPS = (['add', 'sub', 'mul', 'div'] * 3 + ['pow_int'] * 4 + ['pow_complex'] * 3 + ['abs'] * 2 + ['unary'] + ['exp'] * 3 +
        ['log'] * 4 + ['sin', 'cos'] * 3 + ['gamma'] * 4)
